@@ -91,7 +91,8 @@ type run struct {
 
 var (
 	runs    sync.Map // py.Context -> *run
-	codeY   *py.Code
+	codeY   *py.Code // y()
+	codeYR  *py.Code // y(); raise
 	racDir  string
 	modSeq  int64
 	settleT = 3 * time.Millisecond
@@ -161,26 +162,8 @@ func (r *run) doOp(p, op string) (out string) {
 		}
 	}()
 	switch op {
-	case "run":
-		g := py.NewStringDict()
-		g["y"] = r.yMethod()
-		if _, err := r.ctx.RunCode(codeY, g, g, nil); err != nil {
-			return "err"
-		}
-		return "ok"
-	case "minit":
-		name := "vm" + strconv.FormatInt(atomic.AddInt64(&modSeq, 1), 10)
-		_, err := r.ctx.ModuleInit(&py.ModuleImpl{Info: py.ModuleInfo{Name: name}, Methods: []*py.Method{r.yMethod()}, Code: codeY})
-		if err != nil {
-			return "err"
-		}
-		return "ok"
-	case "rac":
-		_, err := r.ctx.ResolveAndCompile("racmod.py", py.CompileOpts{CurDir: racDir})
-		if err != nil {
-			return "err"
-		}
-		return "ok"
+	case "run", "runr", "minit", "minitr", "minitc", "rac", "racx":
+		return execOp(r.ctx, op, r.yMethod())
 	case "close":
 		r.ctx.Close()
 		return "closed"
@@ -191,6 +174,39 @@ func (r *run) doOp(p, op string) (out string) {
 		return "done"
 	}
 	return "?"
+}
+
+// execOp performs one execution request of the script alphabet on ctx (see spec/C09/Lifecycle.tla).
+func execOp(ctx py.Context, op string, y *py.Method) string {
+	var err error
+	switch op {
+	case "run", "runr":
+		g := py.NewStringDict()
+		g["y"] = y
+		code := codeY
+		if op == "runr" {
+			code = codeYR
+		}
+		_, err = ctx.RunCode(code, g, g, nil)
+	case "minit", "minitr":
+		name := "vm" + strconv.FormatInt(atomic.AddInt64(&modSeq, 1), 10)
+		code := codeY
+		if op == "minitr" {
+			code = codeYR
+		}
+		_, err = ctx.ModuleInit(&py.ModuleImpl{Info: py.ModuleInfo{Name: name}, Methods: []*py.Method{y}, Code: code})
+	case "minitc":
+		name := "vm" + strconv.FormatInt(atomic.AddInt64(&modSeq, 1), 10)
+		_, err = ctx.ModuleInit(&py.ModuleImpl{Info: py.ModuleInfo{Name: name}, CodeSrc: "def (:\n"})
+	case "rac":
+		_, err = ctx.ResolveAndCompile("racmod.py", py.CompileOpts{CurDir: racDir})
+	case "racx":
+		_, err = ctx.ResolveAndCompile("nosuchfile.py", py.CompileOpts{CurDir: racDir})
+	}
+	if err != nil {
+		return "err"
+	}
+	return "ok"
 }
 
 var blockedPcs = map[string]bool{"in_wait": true, "in_once": true, "in_done": true}
@@ -534,7 +550,7 @@ func opOf(g *graph, e edge) string {
 
 // sampled script assignments for the thorough tier: a generated MC module with an explicit ScriptSet
 func sampleModule(rng *rand.Rand, n, nprocs, maxLen int) string {
-	ops := []string{"run", "minit", "rac", "close", "wait"}
+	ops := []string{"run", "minit", "rac", "close", "wait", "close", "runr", "minitr", "racx", "minitc"}
 	procs := []string{"a", "b", "c", "d"}[:nprocs]
 	var sets []string
 	for i := 0; i < n; i++ {
@@ -578,6 +594,9 @@ func main() {
 	}
 	var err error
 	codeY, err = py.Compile("y()\n", "<y>", py.ExecMode, 0, true)
+	if err == nil {
+		codeYR, err = py.Compile("y()\nraise ValueError('x')\n", "<yr>", py.ExecMode, 0, true)
+	}
 	if err != nil {
 		common.Inconclusive("property=C09 compile: %v", err)
 	}
@@ -591,9 +610,9 @@ func main() {
 	}
 
 	// 1. design check
-	designs := []string{"design2q.cfg", "design3.cfg"}
+	designs := []string{"design2q.cfg", "design2x.cfg", "design3.cfg"}
 	if env.Thorough() {
-		designs = []string{"design2.cfg", "design3.cfg", "design3q.cfg"}
+		designs = []string{"design2.cfg", "design2x.cfg", "design3.cfg", "design3q.cfg"}
 	}
 	design := map[string]interface{}{}
 	for _, cfg := range designs {
@@ -609,6 +628,7 @@ func main() {
 	// 2+3. graph export and edge-coverage replay
 	var graphs []*graph
 	graphs = append(graphs, loadGraphs(env, rep, "replay2.cfg", nil, "MC")...)
+	graphs = append(graphs, loadGraphs(env, rep, "replay2x.cfg", nil, "MC")...)
 	graphs = append(graphs, loadGraphs(env, rep, "replay3.cfg", nil, "MC")...)
 	rng := rand.New(rand.NewSource(env.Seed))
 	n3 := env.Pick(6, 60)
